@@ -90,7 +90,7 @@ type Pair struct {
 	HoldAfterHijack atomic.Bool
 	// RespondViaSetMessage: server handlers answer with a message of their own (ResponseWriter.SetMessage)
 	RespondViaSetMessage atomic.Bool
-	hijackWait      sync.Map // *pool.Message -> chan struct{}
+	hijackWait           sync.Map // *pool.Message -> chan struct{}
 }
 
 // WireGarbage returns the datagrams emitted by one of the two real endpoints that are not CoAP messages.
@@ -293,6 +293,13 @@ func NewUDPPair(poolSize int, rule Rule) *Pair { return NewUDPPairN(poolSize, ru
 // nstart (0: practically unlimited). With a small NSTART, exchanges queue inside the transmission layer, and the ones whose
 // context ends there never reach the wire.
 func NewUDPPairN(poolSize int, rule Rule, nstart uint32) *Pair {
+	return NewUDPPairB(poolSize, rule, nstart, true)
+}
+
+// NewUDPPairB: as NewUDPPairN; bw=false builds both connections without a block-wise layer (what
+// options.WithBlockwise(false, ...) gives): everything that is per connection - the response cache, the pending
+// confirmables, the housekeeping - must work the same without it.
+func NewUDPPairB(poolSize int, rule Rule, nstart uint32, bw bool) *Pair {
 	p := &Pair{Kind: "udp", stop: make(chan struct{}), slowGate: make(chan struct{})}
 	cs, ss := sim.NewMemSession(), sim.NewMemSession()
 	cs.Out = make(chan []byte, 1<<14)
@@ -307,7 +314,7 @@ func NewUDPPairN(poolSize int, rule Rule, nstart uint32) *Pair {
 		rule = p.defaultRule()
 	}
 	mk := func(s *sim.MemSession, side string, own int, h udpclient.HandlerFunc) *udpclient.Conn {
-		return sim.NewUDPConn(s, sim.UDPOpts{Blockwise: true, SZX: blockwise.SZX64, BWTimeout: 3 * time.Second, Pool: pool.New(uint32(poolSize), 2048), Handler: h, Errors: p.errf(side),
+		return sim.NewUDPConn(s, sim.UDPOpts{Blockwise: bw, SZX: blockwise.SZX64, BWTimeout: 3 * time.Second, Pool: pool.New(uint32(poolSize), 2048), Handler: h, Errors: p.errf(side),
 			Mutate: func(cfg *udpclient.Config) {
 				cfg.GetMID = func() int32 { return int32((own + 0xffff/2) & 0xffff) }
 				cfg.TransmissionMaxRetransmit = 2
@@ -343,7 +350,7 @@ func NewUDPPairN(poolSize int, rule Rule, nstart uint32) *Pair {
 			_ = w.SetResponse(code, message.AppOctets, rd, opts...)
 		})
 	})
-	cli := sim.NewUDPConn(cs, sim.UDPOpts{Blockwise: true, SZX: blockwise.SZX64, BWTimeout: 3 * time.Second, Pool: pool.New(uint32(poolSize), 2048), Errors: p.errf("cli"),
+	cli := sim.NewUDPConn(cs, sim.UDPOpts{Blockwise: bw, SZX: blockwise.SZX64, BWTimeout: 3 * time.Second, Pool: pool.New(uint32(poolSize), 2048), Errors: p.errf("cli"),
 		Mutate: func(cfg *udpclient.Config) {
 			cfg.GetMID = func() int32 { return int32((40000 + 0xffff/2) & 0xffff) }
 			cfg.TransmissionMaxRetransmit = 2
